@@ -32,7 +32,7 @@ pub fn run(cx: &mut Ctx) {
         Step::Map(Fn_::Dup), Step::FlatMap(FlatFn::Twice), Step::Keys,
     ];
     let src: Vec<V> = (0..5).map(|i| V::pair(V::I(i % 2), V::I(i))).collect();
-    let depth = cx.budget(2, 3);
+    let depth = size_for(cx, 2, 3);
     let mut progs: Vec<(Shape, Vec<Step>)> = vec![(Shape::KV, vec![])];
     let mut frontier = progs.clone();
     for _ in 0..depth {
@@ -95,4 +95,6 @@ pub fn run(cx: &mut Ctx) {
         if !reorder_inert(&p) { cx.count("program:reorder-pass-active"); }
         check_prog(cx, &p, &modes, &o);
     }
+    // round 3: terminals, new steps, composites (c02_x.rs)
+    crate::c02_x::run(cx);
 }
